@@ -130,6 +130,7 @@ def gen_table(rnd):
     nprocs = rnd.choice([1, 1, 2])
     nloci = rnd.randrange(1, 4)
     loci = [{'owner': rnd.randrange(nprocs), 'init': rnd.sample(range(7), rnd.randrange(0, 7))} for _ in range(nloci)]
+    loci.sort(key=lambda l: l['owner'])      # dyn.loci() lists loci process by process: keep the global index in that order
     if all(not l['init'] for l in loci):
         loci[0]['init'] = rnd.sample(range(7), rnd.randrange(2, 7))
     nprogs = rnd.randrange(2, 5)
@@ -137,10 +138,15 @@ def gen_table(rnd):
     progs = [kcommon.gen_actions(rnd, k, nprogs, nloci, allow, maxacts=2) for k in range(nprogs)]
     nev = rnd.randrange(2, 6)
     ps = rate_mix(rnd, nev)
+    kinds = ['elem', 'elem', 'fixed']
+    if rnd.random() < 0.2:
+        # fixed-rate kinds whose total is a power of two: every prefix sum is an exactly representable boundary
+        ps = list(rnd.choice([[0.25, 0.25, 0.5], [0.5, 0.0, 0.5], [24 * LO, HI, 0.0], [0.25, 0.0, 0.25, 0.0, 0.5], [HI, 24 * LO], [1.0, 0.5, 0.5]]))
+        kinds = ['fixed']
     procs = [{'events': [], 'setup': []} for _ in range(nprocs)]
     for p in ps:
         li = rnd.randrange(nloci)
-        procs[loci[li]['owner']]['events'].append({'kind': rnd.choice(['elem', 'elem', 'fixed']), 'locus': li, 'p': p,
+        procs[loci[li]['owner']]['events'].append({'kind': rnd.choice(kinds), 'locus': li, 'p': p,
                                                      'prog': rnd.randrange(nprogs)})
     # posted events that change loci between the selection and the draw of some iteration
     if rnd.random() < 0.4:
@@ -199,25 +205,35 @@ def boundary_variant(case, rnd):
         return None
     steps = obs['gsteps']
     log = obs['oracle_log']
-    cands = [k for k, s in enumerate(steps) if len(s['rates']) > 1 and exact_total(s['rates']) > 0 and len(s['rands']) == 2]
+    cands = [k for k, s in enumerate(steps) if len(s['rates']) > 1 and exact_total(s['rates']) > 0 and len(s['rands']) == 2][:8]
     if not cands:
         return None
-    k = rnd.choice(cands[:6])
+
+    def prefixes(s):
+        a = exact_total(s['rates'])
+        out, pre = [], Fraction(0)
+        for j, r in enumerate(s['rates'][:-1]):
+            pre += Fraction(r)
+            if 0 < pre < a:
+                r2 = float(pre / a)
+                if Fraction(r2) * a == pre and r2 * float(a) == float(pre):
+                    out.append(('prefix%d' % (j + 1), r2))
+        return out
+    withp = [k for k in cands if prefixes(steps[k])]
+    if withp and rnd.random() < 0.6:
+        k = rnd.choice(withp)
+        which, r2 = rnd.choice(prefixes(steps[k]))
+    else:
+        k = rnd.choice(cands)
+        a = exact_total(steps[k]['rates'])
+        opts = [('zero', 0.0)]
+        pow2 = a.numerator & (a.numerator - 1) == 0 and a.denominator & (a.denominator - 1) == 0
+        # (1 - 2^-53) * a is exact when a is a power of two; otherwise it may round to a, and the scan then falls
+        # through to the last entry: harmless when that entry has a positive rate (DESIGN.md C02, not covered otherwise)
+        if pow2 or steps[k]['rates'][-1] > 0:
+            opts.append(('max', ONE_BELOW))
+        which, r2 = rnd.choice(opts)
     s = steps[k]
-    a = exact_total(s['rates'])
-    opts = [('zero', 0.0)]
-    pow2 = a.numerator & (a.numerator - 1) == 0 and a.denominator & (a.denominator - 1) == 0
-    if pow2 or s['rates'][-1] > 0:
-        opts.append(('max', ONE_BELOW))
-    pre = Fraction(0)
-    for j, r in enumerate(s['rates'][:-1]):
-        pre += Fraction(r)
-        if 0 < pre < a:
-            r2 = float(pre / a)
-            if Fraction(r2) * a == pre and r2 * float(a) == float(pre):
-                opts.append(('prefix%d' % (j + 1), r2))
-                opts.append(('prefix%d' % (j + 1), r2))
-    which, r2 = rnd.choice(opts)
     before = log[:s['log0']]
     rands = [e[1] for e in before if e[0] == 'random'] + [s['rands'][0], r2]
     ints = [e[3] - e[1] for e in before if e[0] == 'integers']
